@@ -116,22 +116,32 @@ def build(ub, algebra_text):
         ub.out(f"// @@SPEC {fn}  <- {SER}:{item.line} (body verbatim)\npub open spec fn {fn}(e: &Expr) -> bool {item.body}\n")
         ub.emitted.append(type(ub.emitted[0])(fn, "item", SER, item.line, 0, 0))
     ser = src.find_fn("serialize_expr")
-    m1 = re.search(r"let convert_result_to_bv = ([^;]+);", ser.body)
-    m2 = re.search(r"let convert_result_to_bool = ([^;]+);", ser.body)
-    m0 = re.search(r"let result_is_bit_vec = always_produces_bit_vec\(expr\);", ser.body)
-    m3 = re.search(r"let child_must_be_bit_vec = always_consumes_bit_vec\(expr\);", ser.body)
-    if not (m0 and m1 and m2 and m3):
+    # the Bool/BitVec discipline of the writer is the block of `let` statements at the head of the loop body (from the one after
+    # `result_is_1_bit` to the debug_assert) plus `let child_must_be_bit_vec = ..;` — taken verbatim, whatever they are
+    mb = re.search(r"let result_is_1_bit = [^;]+;\s*(.*?)\n\s*debug_assert!", ser.body, re.S)
+    m3 = re.search(r"let child_must_be_bit_vec = [^;]+;", ser.body)
+    if not (mb and m3):
         raise AnchorError("serialize_expr: coercion conditions not found")
+    lets = re.sub(r"//[^\n]*", "", mb.group(1)).strip()
+    names = re.findall(r"let ([a-z_0-9]+)\s*=", lets)
+    if not all(re.match(r"\s*let [a-z_0-9]+\s*=\s*[^;]+;\s*$", st + ";", re.S) for st in lets.split(";") if st.strip()):
+        raise AnchorError("serialize_expr: unexpected statement among the coercion conditions")
+    for need in ("result_is_bit_vec", "convert_result_to_bv", "convert_result_to_bool"):
+        if need not in names:
+            raise AnchorError(f"serialize_expr: `let {need} = ..` not found")
+    hdr = "(expr: &Expr, result_is_1_bit: bool, must_be_bit_vec: bool) -> bool"
     ub.out("#[derive(PartialEq, Eq, Structural)] pub enum Sort { B, V, A }\n"
            f"// coercion conditions of serialize_expr, verbatim  <- {SER}:{ser.line}\n"
-           f"pub open spec fn convert_result_to_bv(result_is_1_bit: bool, must_be_bit_vec: bool, result_is_bit_vec: bool) -> bool {{ {m1.group(1)} }}\n"
-           f"pub open spec fn convert_result_to_bool(result_is_1_bit: bool, must_be_bit_vec: bool, result_is_bit_vec: bool) -> bool {{ {m2.group(1)} }}\n"
+           f"pub open spec fn produces{hdr} {{ {lets} result_is_bit_vec }}\n"
+           f"pub open spec fn to_bv{hdr} {{ {lets} convert_result_to_bv }}\n"
+           f"pub open spec fn to_bool{hdr} {{ {lets} convert_result_to_bool }}\n"
+           f"pub open spec fn consumes{hdr} {{ {lets} {m3.group(0)} child_must_be_bit_vec }}\n"
            "/// the sort a consumer receives for a value (1-bit values are Bool unless the consumer demands a bit-vector)\n"
            "pub open spec fn wanted(is1: bool, must_be_bit_vec: bool, is_arr: bool) -> Sort { if is_arr { Sort::A } else if is1 && !must_be_bit_vec { Sort::B } else { Sort::V } }\n"
            "/// sort of the written term: its head's result sort `nat`, wrapped by `(ite t #b1 #b0)` (Bool->BitVec) or `(= t #b1)` (BitVec->Bool)\n"
-           "pub open spec fn written(hs: Sort, r1: bool, mbv: bool, apb: bool) -> Sort {\n"
-           "    if convert_result_to_bv(r1, mbv, apb) { if hs == Sort::B { Sort::V } else { Sort::A /* ill-sorted ite */ } }\n"
-           "    else if convert_result_to_bool(r1, mbv, apb) { if hs == Sort::V { Sort::B } else { Sort::A /* ill-sorted = */ } }\n"
+           "pub open spec fn written(hs: Sort, e: &Expr, r1: bool, mbv: bool) -> Sort {\n"
+           "    if to_bv(e, r1, mbv) { if hs == Sort::B { Sort::V } else { Sort::A /* ill-sorted ite */ } }\n"
+           "    else if to_bool(e, r1, mbv) { if hs == Sort::V { Sort::B } else { Sort::A /* ill-sorted = */ } }\n"
            "    else { hs }\n}\n"
            "pub open spec fn elem(is1: bool) -> Sort { if is1 { Sort::B } else { Sort::V } }\n")
     enum_text, _ = ub.src(NODES).find_item("enum", "Expr")
@@ -214,7 +224,7 @@ def build(ub, algebra_text):
                 raise AnchorError(f"{v}: head `{head}` takes {len(args)} operands, node has {n}")
             conj = []
             for i, (ak, kk) in enumerate(zip(args, kinds)):
-                got = f"wanted(o{i}, always_consumes_bit_vec(&e), {'true' if kk == 'a' else 'false'})"
+                got = f"wanted(o{i}, consumes(&e, r1, mbv), {'true' if kk == 'a' else 'false'})"
                 if ak in "BVA":
                     conj.append(f"{got} == Sort::{ak}")
                 elif ak == "E":
@@ -222,15 +232,15 @@ def build(ub, algebra_text):
                 elif ak == "S":
                     first = [j for j, x in enumerate(args) if x == "S"][0]
                     if i != first:
-                        conj.append(f"{got} == wanted(o{first}, always_consumes_bit_vec(&e), {'true' if kinds[first] == 'a' else 'false'})")
+                        conj.append(f"{got} == wanted(o{first}, consumes(&e, r1, mbv), {'true' if kinds[first] == 'a' else 'false'})")
             if hkey in BOOL_ONLY:
                 conj.append("r1")
             nat = {"B": "Sort::B", "V": "Sort::V", "A": "Sort::A", "Er": "elem(r1)"}.get(res)
             if res == "S":
                 first = [j for j, x in enumerate(args) if x == "S"][0]
-                nat = f"wanted(o{first}, always_consumes_bit_vec(&e), {'true' if kinds[first] == 'a' else 'false'})"
+                nat = f"wanted(o{first}, consumes(&e, r1, mbv), {'true' if kinds[first] == 'a' else 'false'})"
             arr = "true" if v in ARRAY_RESULT else "false"
-            conj.append(f"written({nat}, r1, mbv, always_produces_bit_vec(&e)) == wanted(r1, mbv, {arr})")
+            conj.append(f"written({nat}, &e, r1, mbv) == wanted(r1, mbv, {arr})")
             ens.append(f"({cexpr}) ==> ({' && '.join(conj)})")
         ub.out(f"// @@FN verify sorted_{v}  <- {SER}:{line}  heads: {[(c, p, h) for c, p, h in alts]}\n"
                f"pub proof fn sorted_{v}({params})\n    requires {', '.join(req)},\n    ensures\n        " + ",\n        ".join(ens) + ",\n{\n}\n")
@@ -240,5 +250,5 @@ def build(ub, algebra_text):
         raise AnchorError(f"serialize_expr does not mention variants {sorted(missing)}")
     # leaves: symbols are declared Bool iff 1 bit wide, literals are written true/false iff 1 bit wide, #b.. otherwise
     ub.out("pub proof fn lemma_leaves(e: Expr, r1: bool, mbv: bool)\n    requires e is BVSymbol || e is BVLiteral,\n"
-           "    ensures written(elem(r1), r1, mbv, always_produces_bit_vec(&e)) == wanted(r1, mbv, false),\n{\n}\n")
+           "    ensures written(elem(r1), &e, r1, mbv) == wanted(r1, mbv, false),\n{\n}\n")
     ub.out("} // verus!\nfn main() {}\n")
